@@ -10,7 +10,9 @@ EXPLANATION = ('Termination of CDCL with restarts and clause deletion and of the
                'three mechanisms the property names, one is structural: the simplex (LRA/RDL checks, and every relaxation inside LIA) terminates because Simplex::checkSimplex switches to '
                'Bland\'s smallest-index rule after finitely many pivots, and Bland\'s rule cannot cycle. Decided: every iteration of the pivoting loop increments the repeat counter and never '
                'lowers it; the Bland flag is only ever set (never cleared) inside the loop, under a comparison of the counter with a quantity the loop does not change; once it is set both '
-               'the leaving and the entering variable come from the Bland selectors; the loop is left only by return; and both selectors keep the candidate with the smallest variable id.')
+               'the leaving and the entering variable come from the Bland selectors; the loop is left only by return; and both selectors keep the candidate with the smallest variable id. '
+               'Two further necessary conditions come from hangs replayed on the pinned tree: the counter dec_vars by which the lookahead engine recognises a full assignment is written '
+               'only together with the decision flags, and the arithmetic substitution step never yields a replacement that can contain another key, so the transitive closure terminates.')
 
 
 class Iter(Client):
@@ -172,7 +174,94 @@ def run(src, tier, seed):
                 n_ok += 1
         if n_ok == len(loops_):
             res.ok(r, '%s: %d selection loop(s) keep the smallest id' % (nm.split('::')[-1], n_ok))
+    decision_count_rule(fx, res)
+    substitution_rule(fx, res)
     return res
+
+
+def decision_count_rule(fx, res):
+    """The lookahead engine recognises a full assignment by `trail.size() == dec_vars`; dec_vars must therefore equal the number of set entries of decision[].
+    On the pinned tree CoreSMTSolver::addVar_ set decision[v] directly: the count fell behind and an incremental :pure-lookahead script never returned (replays/C30)."""
+    r = res.rule('decision-count-in-sync', 'the decision flag of a variable and the counter dec_vars are written only by CoreSMTSolver::setDecisionVar (which updates both together); '
+                 'the lookahead engine compares the trail size with dec_vars to recognise a full assignment', floor=3)
+    readers = [f for f in fx.F.values() if f.get('body') and 'LookaheadSMTSolver' in f['name'] and any(x.get('k') == 'mem' and x.get('n') == 'dec_vars' for x in fwalk(f))]
+    if not readers:
+        raise AnalysisBroken('decision-count-in-sync: the lookahead engine no longer reads dec_vars (anchor)')
+    for f in sorted(readers, key=lambda f: f['name']):
+        res.ok(r, '%s compares against dec_vars' % f['name'].replace('opensmt::', ''))
+    n_sync = 0
+    for f in sorted(fx.F.values(), key=lambda f: f['name']):
+        if not f.get('body'):
+            continue
+        short = f['name'].split('::')[-1]
+        for n in fwalk(f):
+            tgt = None
+            a = as_assign(n) if n.get('k') in ('bin', 'call') else None
+            if a:
+                tgt = path_of(a[0])
+            elif n.get('k') == 'un' and n.get('op') in ('++', '--'):
+                tgt = path_of(n['e'])
+            if not tgt or not (tgt.startswith('this.decision[') or tgt == 'this.decision' or tgt == 'this.dec_vars'):
+                continue
+            mem = [x for x in walk(a[0] if a else n['e']) if x.get('k') == 'mem' and x.get('n') in ('decision', 'dec_vars')] + \
+                  ([see_through(a[0] if a else n['e'])] if see_through(a[0] if a else n['e']).get('k') == 'mem' else [])
+            if not any('CoreSMTSolver' in (x.get('of') or '') for x in mem):
+                continue
+            if short == 'setDecisionVar':
+                n_sync += 1
+                continue
+            res.bad(r, 'decision-flag-bypasses-count:%s' % short, fx.loc(f, n.get('ln')), '%s writes %s directly instead of through setDecisionVar: dec_vars no longer equals the number of decision '
+                    'variables, and the lookahead engine (full assignment iff trail.size() == dec_vars) does not terminate or stops early' % (f['name'].replace('opensmt::', ''), tgt.replace('this.', '')))
+    if n_sync < 3:
+        raise AnalysisBroken('decision-count-in-sync: setDecisionVar no longer updates decision[] and dec_vars (%d writes found)' % n_sync)
+    res.ok(r, 'setDecisionVar: %d writes, flag and counter together' % n_sync)
+    res.ok(r, 'no other function writes decision[] or dec_vars')
+
+
+def substitution_rule(fx, res):
+    """Logic::substitutionsTransitiveClosure rewrites the replacements until nothing changes; it terminates only if no replacement can (transitively) contain its own key.  The
+    equality-based substitutions pass through SubstLoopBreaker; the arithmetic ones are added afterwards.  On the pinned tree f(x) -> h(g(y)) and g(y) -> k(f(x)) were produced
+    and check-sat did not return (replays/C30)."""
+    import itertools
+    from boolctor import Interp, Unmodelled, Thrown
+    r = res.rule('arithmetic-substitutions-acyclic', 'with uninterpreted functions or arrays, polyToPTRefSubstitution (evaluated abstractly on polynomials over plain variables, applications and a '
+                 'constant) yields a replacement only when every other term is a plain variable - a replacement then cannot contain the key of another substitution - or the arithmetic '
+                 'substitutions pass through the loop breaker before the transitive closure', floor=8)
+    rs = fx.func('opensmt::ArithLogic::retrieveSubstitutions')
+    ae = fx.func('opensmt::ArithLogic::arithmeticElimination')
+    if any(x.get('k') in ('new', 'call') and 'SubstLoopBreaker' in ((x.get('t') or '') + (x.get('f') or '') + (x.get('id') or '')) for g in (rs, ae) for x in fwalk(g)):
+        for _ in range(8):
+            res.ok(r, 'arithmetic substitutions pass through SubstLoopBreaker')
+        return
+    fs = [f for f in fx.F.values() if f['name'].endswith('::polyToPTRefSubstitution') and f.get('body')]
+    if len(fs) != 1:
+        raise AnalysisBroken('polyToPTRefSubstitution not found (%d)' % len(fs))
+    f = fs[0]
+    pn = [p['n'] for p in f['params']]
+    if len(pn) != 3:
+        raise AnalysisBroken('polyToPTRefSubstitution: expected (logic, var, poly)')
+    try:
+        for keykind, others, ufs in itertools.product(('var', 'app'), [(), ('var',), ('app',), ('var', 'app'), ('const',)], ((True, False), (False, True))):
+            terms = [('term', 'k', keykind)] + [('term', 'o%d' % i, k) for i, k in enumerate(others)]
+            it = Interp(fx, f, '?', {})
+            it.oracle = {
+                'hasUFs': lambda i, a, n, v=ufs[0]: v, 'hasArrays': lambda i, a, n, v=ufs[1]: v, 'isVar': lambda i, a, n: a[-1][2] == 'var',
+                'mem:var': lambda i, a, n: ('undef-ref',) if a[0][2] == 'const' else a[0],
+                'getCoeff': lambda i, a, n: ('real',), 'isOne': lambda i, a, n: True, 'negate': lambda i, a, n: None, 'yieldsSortInt': lambda i, a, n: False,
+                'removeVar': lambda i, a, n: None, 'divideBy': lambda i, a, n: None, 'polyToPTRef': lambda i, a, n: ('rhs',), 'getSortRef': lambda i, a, n: ('sort',),
+            }
+            out = it.run_env({pn[0]: ('logic',), pn[1]: terms[0], pn[2]: terms, 'PTRef_Undef': ('undef-ref',)})
+            nested = 'app' in others
+            if nested and out != ('undef-ref',):
+                res.bad(r, 'replacement-may-contain-a-key', fx.loc(f), 'polyToPTRefSubstitution (logic with %s) turns an equality whose eliminated term is %s and whose other terms include an '
+                        'application into a substitution: the replacement can contain the key of another substitution (f(x) -> h(g(y)), g(y) -> k(f(x))), nothing breaks such a cycle '
+                        'after the arithmetic elimination, and Logic::substitutionsTransitiveClosure does not terminate' % ('uninterpreted functions' if ufs[0] else 'arrays', 'a plain variable' if keykind == 'var' else 'an application'))
+            else:
+                res.ok(r, 'eliminated term %s, other terms %s: %s' % (keykind, list(others), 'no substitution' if out == ('undef-ref',) else 'substitution'))
+    except Thrown:
+        raise AnalysisBroken('polyToPTRefSubstitution throws on the abstract input')
+    except Unmodelled as e:
+        raise AnalysisBroken('polyToPTRefSubstitution is outside the modelled subset: %s' % e)
 
 
 def mins_seed(f):
